@@ -134,7 +134,7 @@ class HG:
                     return "log('skip');"
             return "Object.setPrototypeOf(%s, %s);" % (target, proto)
         if r < 0.88:
-            return "Object.assign(%s, %s, {b: 'assigned'});" % (o, self.obj())
+            return "Object.assign(%s, %s, {b: 'assigned'});" % (o, self.plain())     # (a function as source: pinned finding)
         if r < 0.94:
             return "log('call', (function () { try { return %s.m(); } catch (e) { return 'THROW:' + e.name; } })());" % o
         return "log('read', (function () { try { return %s%s; } catch (e) { return 'THROW:' + e.name; } })());" % (o, self.keyexpr(k))
@@ -222,6 +222,7 @@ EXTRA = [
     ("new-target-chain", "function A(v) { this.a = v; } function B(v) { A.call(this, v); this.b = v * 2; } B.prototype = Object.create(A.prototype); B.prototype.constructor = B; var x = new B(2); [x.a, x.b, x instanceof A, x.constructor === B]"),
     ("method-on-prototype-this", "function P(n) { this.n = n; } P.prototype.get = function () { return this.n; }; var a = new P(1), b = new P(2); [a.get(), b.get(), a.get === b.get, a.get.call(b)]"),
     ("fn-statics-assign-define", "function f() {} Object.assign(f, {a: 1}); Object.defineProperty(f, 'd', {value: 2, enumerable: true}); [f.a, f.d, Object.keys(f)]"),
+    ("fn-statics-assign-source", "function f() {} f.own = 1; var t = Object.assign({}, f); [t.own, Object.keys(t)]"),
     ("fn-statics-values-entries", "function f() {} f.a = 1; [Object.keys(f), Object.values(f).length, Object.entries(f).length]"),
     ("fn-statics-setPrototypeOf", "function f() {} var p = {inh: 3}; Object.setPrototypeOf(f, p); [f.inh, Object.getPrototypeOf(f) === p, typeof f.call]"),
     ("fn-as-prototype", "function f() {} f.shared = 1; var o = Object.create(f); function K() {} K.prototype = f; [o.shared, Object.getPrototypeOf(o) === f, new K().shared]"),
